@@ -11,6 +11,7 @@ comparing every entry point's result with the Lean reference decoder on grammar-
 import MinizProof.Gen.All
 import MinizProof.Spec.Inflate
 import MinizProof.Lemmas.Finite
+import MinizProof.Lemmas.CoreRefine
 set_option maxRecDepth 1000000
 open Fin'
 
@@ -57,6 +58,46 @@ theorem length_padding_unreachable : ∀ sym, 257 ≤ sym → sym ≤ 285 →
     decide +kernel
   intro sym h1 h2
   simpa using allBelow_spec h (sym - 257) (by omega)
+
+/-! ### Refinement: the decoder model against the RFC reference decoder
+
+`Model.Core.decompress` is the hand model of `decompress_with_limit` (tied to the code by the ICALL
+correspondence on every real call of every run); `Spec.inflateSpec` is the reference decoder written
+from RFC 1951. The theorem below quantifies over EVERY input byte string, every output buffer, start
+position, budget, history `pre` already in the buffer and flags word with a flat buffer: it is proved
+by simulation — bit-buffer representation invariant (`Lemmas/CoreBits`), one lemma per automaton
+state, induction over the token loop (`Lemmas/CoreTokens`), the code-length loop and the dynamic
+header (`Lemmas/CoreDynamic`), stored blocks at any bit alignment (`Lemmas/CoreBlocks`), induction
+over the block loop and a fuel argument resting on the termination measure (`Lemmas/CoreRefine`).
+It covers everything the property lists: 11–15-bit codes, degenerate one-symbol codes, empty and
+stored blocks at any alignment, code-length runs crossing the literal/distance boundary, length-258
+and distance-32768 matches, overlapping copies — because it covers every stream the RFC decoder accepts. -/
+open Model.Core in
+/-- Every raw DEFLATE stream the RFC reference decoder accepts is decoded by ONE call of the model
+    (flat output buffer with room for the plaintext, decoder at `Start`) to exactly the specified
+    bytes, reported as `Done`, with exactly ⌈bits used / 8⌉ input bytes consumed — whatever follows
+    the stream in the input. Bytes before `outPos` are the history matches may reach into. -/
+theorem valid_raw_stream_decodes_one_shot (r : Regs) (inp out : Array UInt8) (outPos budget flags maxDist : Nat)
+    (res : Spec.Inflated) (hstart : r.state = sStart)
+    (hshape : r.rawHeader.size = 4 ∧ r.tableSizes.size = 3 ∧ r.lenCodes.size = 512)
+    (hflat : hasFlag flags fNonWrapping = true) (hz : hasFlag flags fParseZlib = false)
+    (hstop : hasFlag flags fStopOnBlockBoundary = false) (hpos : outPos ≤ out.size)
+    (hspec : Spec.inflateSpec (out.extract 0 outPos) maxDist inp 0 = .accept res)
+    (hroom : outPos + res.out.size ≤ min (outPos + budget) out.size) :
+    (decompress r inp out outPos budget flags).status = stDone ∧
+    (decompress r inp out outPos budget flags).written = res.out.size ∧
+    (decompress r inp out outPos budget flags).consumed = (res.bitsUsed + 7) / 8 ∧
+    (∀ i, i < res.out.size → (decompress r inp out outPos budget flags).out[outPos + i]? = res.out[i]?) :=
+  refine_raw_flat r inp out outPos budget flags maxDist res hstart hshape hflat hz hstop hpos hspec hroom
+
+/-- The hypotheses are satisfiable: a fresh decoder is at `Start` with registers of the right shape,
+    and the reference decoder accepts concrete stored and fixed-Huffman streams (with a trailing byte). -/
+example : ({} : Model.Core.Regs).state = Model.Core.sStart ∧ ({} : Model.Core.Regs).rawHeader.size = 4 ∧
+    ({} : Model.Core.Regs).tableSizes.size = 3 ∧ ({} : Model.Core.Regs).lenCodes.size = 512 := by decide
+example : (match Spec.inflateSpec #[] 32768 #[0x01, 0x01, 0x00, 0xfe, 0xff, 0x41, 0x99] 0 with
+  | .accept r => r.out == #[0x41] && r.bitsUsed == 48 | _ => false) = true := by decide +kernel
+example : (match Spec.inflateSpec #[] 32768 #[0x73, 0x04, 0x00] 0 with
+  | .accept r => r.out == #[0x41] && r.bitsUsed == 18 | _ => false) = true := by decide +kernel
 
 example : Spec.lengthBaseExtra 285 = (258, 0) := by decide
 example : Spec.distBaseExtra 29 = (24577, 13) := by decide
